@@ -16,10 +16,9 @@ Theorem C13_refines : forall dict o x, wfo o = true ->
   end.
 Proof. exact refines. Qed.
 
-(** Lifted to histories by fold_left: as long as no operation of the known class fails (a
-    CONSTRUCTIVE action under a NESTED selector that the reference semantics rejects), the object
-    after any list of operations (failing ones included) is the one the reference semantics yields. *)
-Theorem C13_refines_history : forall dict ops o, wfo o = true -> no_known_fail dict ops o ->
+(** Lifted to histories by fold_left: the object after ANY list of operations (failing ones included)
+    is the one the reference semantics yields. *)
+Theorem C13_refines_history : forall dict ops o, wfo o = true ->
   apply_all dict ops o = spec_all dict ops o.
 Proof. exact history_refines. Qed.
 
@@ -27,22 +26,12 @@ Proof. exact history_refines. Qed.
 Theorem C13_wf_invariant : forall dict ops o, wfo o = true -> wfo (apply_all dict ops o) = true.
 Proof. exact wfo_apply_all. Qed.
 
-(** Failure => unchanged, for root selectors and for non-constructive actions at any depth
-    (in particular: non-constructive actions on missing paths fail without side effects). *)
-Theorem C13_fail_no_effect_outside_known : forall dict steps leaf a o,
-  (steps = [] \/ constructive a = false) -> wfo o = true ->
-  fst (apply dict o (steps, leaf, a)) <> Ok tt -> snd (apply dict o (steps, leaf, a)) = o.
-Proof. intros dict steps leaf a o Hk Hw. apply fail_sel; assumption. Qed.
-
-(** ... and it is refuted in the known class NestedFailureLeavesPath: a constructive action under a
-    nested selector that fails at a later step leaves the sequences and items created on the way. *)
-Theorem C13_fail_no_effect_refuted :
-  exists dict o x, wfo o = true /\ (exists e, fst (apply dict o x) = Err e /\ spec_op dict o x = Err e) /\
-                   snd (apply dict o x) <> o.
-Proof.
-  exists w_dict, [], w_nested. destruct nested_failure_witness as (H1 & H2 & H3 & H4).
-  split; [exact H1|]. split; [exists e_not_a_seq; split; assumption|]. rewrite H3. discriminate.
-Qed.
+(** Failure => unchanged, for EVERY operation (constructive or not, at any depth): "an error is
+    returned and no changes to the receiver are made". In particular non-constructive actions on
+    missing paths fail without side effects. *)
+Theorem C13_fail_no_effect : forall dict o x, wfo o = true ->
+  fst (apply dict o x) <> Ok tt -> snd (apply dict o x) = o.
+Proof. exact fail_apply. Qed.
 
 (** Frame: every attribute of the root data set other than the one the selector starts with is
     untouched, whatever the outcome. *)
@@ -51,7 +40,11 @@ Proof. exact frame. Qed.
 
 (** The operation never panics (the `expect` in `apply` is unreachable). *)
 Theorem C13_no_panic : forall dict o steps leaf a w, fst (apply dict o (steps, leaf, a)) <> Panic w.
-Proof. intros. apply no_panic_sel. Qed.
+Proof.
+  intros dict o steps leaf a w. cbn [apply]. destruct (constructive a); [|apply no_panic_sel].
+  destruct (check_path dict steps o) eqn:E; [apply no_panic_sel|discriminate|].
+  exfalso. eapply check_no_panic. exact E.
+Qed.
 
 (** Writing, part 1 (proved): in every object reachable by ANY history from an object whose
     values agree in kind with their VRs (sequence <-> SQ, pixel fragments <-> OB Pixel Data; the
@@ -62,7 +55,7 @@ Theorem C13_writable_no_panic : forall dict ops o, kind_ok o = true ->
 Proof. intros dict ops o H. pose proof (kind_apply_all dict ops o H) as Hk. split; [exact Hk|apply kind_no_panic, Hk]. Qed.
 
 (** Writing, part 2: the object stays well-shaped (and then encodes as what it is) unless it
-    contains a non-empty primitive value under the VR SQ — the known class PrimitiveUnderSqVr. *)
+    contains a primitive value under the VR SQ — the known class PrimitiveUnderSqVr. *)
 Theorem C13_shape_outside_known : forall dict ops o, kind_ok o = true ->
   sq_prim_free (apply_all dict ops o) = true -> shape_ok (apply_all dict ops o) = true.
 Proof. intros dict ops o H Hs. rewrite shape_ok_split, Hs, (kind_apply_all dict ops o H). reflexivity. Qed.
@@ -83,15 +76,14 @@ Definition ex_ops : list op :=
    ([(593921, 1)], 1048608, APushStr [49]);                        (* next item *)
    ([], 1210231, APushNum 2 [7; 7; 7; 7; 7; 7; 7; 1088421888; 4619567317775286272] [55]);  (* unknown tag, PushU16 7 *)
    ([(593921, 5)], 1048608, ARemove);                              (* fails: missing item *)
+   ([(593921, 0); (1048592, 0)], 1048608, ASet (PStr [120]));      (* fails: (0010,0010) is not a sequence; nothing is created *)
    ([], 593921, ATruncate 1)].
 Example C13_nonvacuous :
-  wfo [] = true /\ no_known_fail w_dict ex_ops [] /\
+  wfo [] = true /\
   apply_all w_dict ex_ops [] =
     [(593921, VR_SQ, VSeq [[(1048592, 20558, VPrim (PStr [65; 94; 66]))]]); (1210231, 21843, VPrim (PNum 2 [7]))].
 Proof.
-  split; [reflexivity|]. split.
-  - cbn [no_known_fail]. repeat split; try (intros (H1 & H2 & e & H3); vm_compute in H3; discriminate).
-  - vm_compute. reflexivity.
+  split; [reflexivity|]. vm_compute. reflexivity.
 Qed.
 
 Check C13_refines : forall dict o x, wfo o = true ->
@@ -100,19 +92,17 @@ Check C13_refines : forall dict o x, wfo o = true ->
   | Err e => fst (apply dict o x) = Err e
   | Panic _ => False
   end.
-Check C13_refines_history : forall dict ops o, wfo o = true -> no_known_fail dict ops o ->
+Check C13_refines_history : forall dict ops o, wfo o = true ->
   apply_all dict ops o = spec_all dict ops o.
-Check C13_fail_no_effect_outside_known : forall dict steps leaf a o,
-  (steps = [] \/ constructive a = false) -> wfo o = true ->
-  fst (apply dict o (steps, leaf, a)) <> Ok tt -> snd (apply dict o (steps, leaf, a)) = o.
+Check C13_fail_no_effect : forall dict o x, wfo o = true ->
+  fst (apply dict o x) <> Ok tt -> snd (apply dict o x) = o.
 Check C13_frame : forall dict o x t, t <> root_tag x -> get (snd (apply dict o x)) t = get o t.
 Check C13_writable_no_panic : forall dict ops o, kind_ok o = true ->
   kind_ok (apply_all dict ops o) = true /\ tokens_panic (apply_all dict ops o) = false.
 Print Assumptions C13_refines.
 Print Assumptions C13_refines_history.
 Print Assumptions C13_wf_invariant.
-Print Assumptions C13_fail_no_effect_outside_known.
-Print Assumptions C13_fail_no_effect_refuted.
+Print Assumptions C13_fail_no_effect.
 Print Assumptions C13_frame.
 Print Assumptions C13_no_panic.
 Print Assumptions C13_writable_no_panic.
